@@ -55,6 +55,7 @@ class _:
         # timers fire from the reactor only; code running during an excursion either leaves a pending timer alone or clears the field
         "retry-timer-stays-pending": "implies(old(self._stopping) and old(self._retry_call is None or active(self._retry_call)), "
                                      "self._retry_call is None or active(self._retry_call))",
+        "commit-request-not-replaced-while-stopping": "implies(old(self._stopping), self._commit_req is None or self._commit_req == old(self._commit_req))",
         "no-new-request-while-stopping": "implies(old(self._stopping) and old(self._request_d is None), self._request_d is None)",
         "commit-timer-stays-pending": "implies(old(self._stopping) and old(self._commit_call is None or active(self._commit_call)), "
                                       "self._commit_call is None or active(self._commit_call))",
@@ -67,7 +68,8 @@ class _:
         # Deferreds of different roles are different objects (each is created fresh for its role)
         "deferred-roles-apart": DISTINCT,
         # C03: at most one commit in flight: an outstanding request always has someone waiting for it
-        "commit-has-waiter": "self._commit_req is None or len(self._commit_ds) > 0",
+        "commit-slot": "self._commit_req is None or not called(self._commit_req)",
+        "commit-has-waiter": "self._stopping or self._commit_req is None or len(self._commit_ds) > 0",
         "timers-apart": "self._retry_call is None or self._commit_call is None or self._retry_call != self._commit_call",
         "idle-when-stopped": "self._start_d is not None or self._request_d is None",
         "roles-apart": "(self._msg_block_d is None or ((self._start_d is None or self._start_d != self._msg_block_d) and "
@@ -160,7 +162,7 @@ method("_update_committed_offset", "(%s, result: Any, offset: int) -> int" % SEL
        checkpoints={"call:_deliver_commit_result#1": {"records-acked-offset[C03]": "self._last_committed_offset == offset"}},
        ensures={"returns-offset[C03]": "result == offset"})
 
-method("_clear_commit_req", "(%s, result: Any) -> Any" % SELF, props=["C03"],
+method("_clear_commit_req", "(%s, result: Any) -> Any" % SELF, props=["C03"], inv_exempt_at_entry=["commit-slot"],
        ensures={"cleared[C03]": "self._commit_req is None"})
 
 method("_clear_processor_deferred", "(%s, result: Any) -> Any" % SELF, props=["C02", "C13"],
@@ -173,7 +175,8 @@ method("_auto_commit", "(%s, by_count: bool = False) -> None" % SELF, props=["C0
 
 method("_send_commit_request", "(%s, retry_delay: Optional[float] = None, attempt: Optional[int] = None) -> None" % SELF, props=["C03"],
        inv_exempt_at_entry=["commit-call-live"],
-       requires=["self._last_processed_offset is not None", "self.consumer_group is not None"],
+       requires=["self._last_processed_offset is not None", "self.consumer_group is not None", "len(self._commit_ds) > 0",
+                 "not self._stopping"],      # reached from commit() (public, see its precondition) or from the retry timer (reactor)
        ensures={"one-request-with-current-offset[C03]":
                 "n_events('CommitRequest') == 1 and event_arg('CommitRequest', 0, 1)[0].offset == old(self._last_processed_offset) "
                 "and event_arg('CommitRequest', 0, 2) == self.commit_consumer_id and event_arg('CommitRequest', 0, 3) == self.commit_generation_id"},
@@ -238,7 +241,8 @@ method("stop", "(%s) -> Optional[int]" % SELF, props=["C13"], no_guarantee=True,
                        # timers fire from the reactor only, never during an excursion: until stop() cancels them they stay pending
                        inv_until={"retry-timer-pending": ("self._retry_call is None or active(self._retry_call)", "self._retry_call"),
                                   "commit-timer-pending": ("self._commit_call is None or active(self._commit_call)", "self._commit_call")},
-                       inv_from={"no-request": ("self._request_d is None", "self._request_d")}),
+                       inv_from={"no-request": ("self._request_d is None", "self._request_d"),
+                                 "no-commit-request": ("self._commit_req is None", "self._commit_req")}),
        loops={"while#1": dict(index="n", inv=["self._stopping", "self._start_d is not None", "self._start_d == old(self._start_d)",
                                                "self._commit_call is None or active(self._commit_call)", "self._request_d is None"])},
        checkpoints={"fire:callback#1": {"stopped-before-notifying[C13]": "self._start_d is None and not self._stopping and self._request_d is None"}},
@@ -259,7 +263,9 @@ method("start", "(%s, start_offset: int) -> Ref_Deferred" % SELF, props=["C13"],
 # carried by OperationInProgress belongs to an OLDER request: only 1.
 method("commit", "(%s) -> Ref_Deferred" % SELF, props=["C03", "C13"], modifies=["Consumer.*", "Deferred.*", "DelayedCall.*", "LoopingCall.*"],
        assumed_ensures={"promise[C13]": "implies(old(self._shuttingdown), promise(result) == 2)"},
-       raises={"OperationInProgress": "False"},
+       # assumption (listed): commit() is not called from a callback fired by stop() while stop() is cancelling the commit
+       # machinery - there an outstanding request without waiters makes _send_commit_request raise instead of failing the Deferred
+       requires=["not self._stopping"],
        checkpoints={"call:_send_commit_request#1": {
            # C03: a new request is issued only when none is outstanding and something new was processed
            "nothing-in-flight[C03]": "self._commit_req is None and old(len(self._commit_ds)) == 0",
